@@ -24,7 +24,9 @@ CONSTANTS
   Handle,        \* [Actors -> handle id]; actors with one handle share its thread lock
   Prog,          \* [Actors -> Seq(operation record)]
   Backend,       \* "local" | "s3cas" | "s3plain"
-  LockKind,      \* "excl" (flock / healthy lock) | "none" (a lock that grants everyone)
+  LockKind,      \* "excl" (flock / healthy lock) | "none" (a lock that grants everyone) | "lease" (the S3 lock:
+                 \* it can be taken over once its lease lapsed, while the old holder is paused and still believes it holds it)
+  Lease,         \* lease length (logical ms) for LockKind = "lease"
   ClockMode,     \* "strict" (every read is later than every earlier read) | "coarse" | "frozen"
   MaxClock,      \* bound on the logical clock when model checking
   MaxAttempts,   \* OCC attempts per commit when model checking (the code: 50)
@@ -125,7 +127,8 @@ VARIABLES
   rlock,      \* handle -> actor holding that handle's thread lock, or "none"
   pc, opi, att, loc,
   faults,     \* remaining fault budget
-  armed,      \* actor -> "none" | "before" | "after"   (fault armed for the next storage call)
+  lease,      \* lease bookkeeping of the distributed lock: [t |-> time of the last acquisition / renewal,
+              \*   lost |-> actors whose lock was taken over before they passed the fence of their attempt]
   \* ---- ghost / history (not part of the implementation state) ----
   commitLog,  \* sequence of [a, i, name, op]  in pointer order
   serial,     \* reference table state: what the acknowledged history means
@@ -139,7 +142,7 @@ VARIABLES
 storageVars == <<hint, metas, metaTime, lists, mans, present, ftime, markers, mtimeM>>
 actorVars   == <<pc, opi, att, loc>>
 ghostVars   == <<commitLog, serial, tsOf, sidOfOp, outcomes, reads, deleted, initBody>>
-vars == <<storageVars, clock, lockHolder, rlock, actorVars, faults, armed, ghostVars>>
+vars == <<storageVars, clock, lockHolder, rlock, actorVars, faults, lease, ghostVars>>
 
 Committers == {a \in Actors : Role[a] = "committer"}
 Readers    == {a \in Actors : Role[a] = "reader"}
@@ -205,7 +208,7 @@ Init ==
   /\ att = [a \in Actors |-> 0]
   /\ loc = [a \in Actors |-> EmptyLoc]
   /\ faults = FaultBudget
-  /\ armed = [a \in Actors |-> "none"]
+  /\ lease = [t |-> 0, lost |-> {}]
   /\ commitLog = <<>>
   /\ serial = [files |-> {960 + j : j \in 1..InitSnaps}, snaps |-> [j \in 1..InitSnaps |-> 900 + j],
                cur |-> IF InitSnaps = 0 THEN 0 ELSE 900 + InitSnaps]
@@ -230,7 +233,7 @@ Tick ==
   /\ ClockMode = "coarse"
   /\ clock < MaxClock
   /\ clock' = clock + 1
-  /\ UNCHANGED <<storageVars, lockHolder, rlock, actorVars, faults, armed, ghostVars>>
+  /\ UNCHANGED <<storageVars, lockHolder, rlock, actorVars, faults, lease, ghostVars>>
 
 (***************************************************************************)
 (* Committer.                                                              *)
@@ -253,7 +256,7 @@ Begin(a) ==
   /\ loc' = [loc EXCEPT ![a] = EmptyLoc]
   /\ att' = [att EXCEPT ![a] = 0]
   /\ pc' = [pc EXCEPT ![a] = IF OpKind(a) = "delsnap" THEN "ds_resolve" ELSE "tx_check"]
-  /\ UNCHANGED <<storageVars, clock, lockHolder, rlock, opi, faults, armed, ghostVars>>
+  /\ UNCHANGED <<storageVars, clock, lockHolder, rlock, opi, faults, lease, ghostVars>>
 
 NextAppend(a) == AppendFiles(a)[Len(loc[a].files) + 1]
 
@@ -265,7 +268,7 @@ WriteMarkerD(a, f) ==
   /\ mtimeM' = (f :> clock) @@ mtimeM
   /\ loc' = [loc EXCEPT ![a].marks = @ \cup {f}]
   /\ pc' = [pc EXCEPT ![a] = "tx_data"]
-  /\ UNCHANGED <<hint, metas, metaTime, lists, mans, present, ftime, clock, lockHolder, rlock, opi, att, faults, armed, ghostVars>>
+  /\ UNCHANGED <<hint, metas, metaTime, lists, mans, present, ftime, clock, lockHolder, rlock, opi, att, faults, lease, ghostVars>>
 
 WriteData(a, f, t) ==
   /\ pc[a] = "tx_data"
@@ -275,14 +278,14 @@ WriteData(a, f, t) ==
   /\ ftime' = (f :> t) @@ ftime
   /\ loc' = [loc EXCEPT ![a].files = Append(@, f)]
   /\ pc' = [pc EXCEPT ![a] = "tx_check"]
-  /\ UNCHANGED <<hint, metas, metaTime, lists, mans, markers, mtimeM, clock, lockHolder, rlock, opi, att, faults, armed, ghostVars>>
+  /\ UNCHANGED <<hint, metas, metaTime, lists, mans, markers, mtimeM, clock, lockHolder, rlock, opi, att, faults, lease, ghostVars>>
 
 \* Transaction.commit() is entered: from here on commit()'s own exception handlers apply
 CommitStart(a) ==
   /\ pc[a] = "tx_check"
   /\ Len(loc[a].files) = Len(AppendFiles(a))
   /\ pc' = [pc EXCEPT ![a] = "c_base"]
-  /\ UNCHANGED <<storageVars, clock, lockHolder, rlock, opi, att, loc, faults, armed, ghostVars>>
+  /\ UNCHANGED <<storageVars, clock, lockHolder, rlock, opi, att, loc, faults, lease, ghostVars>>
 
 \* no appended files => nothing to validate (no storage call happens): straight to the list
 AfterBase(a) == IF Len(AppendFiles(a)) = 0 THEN "c_wlist_mark" ELSE "c_checkdata"
@@ -306,7 +309,7 @@ ReadBase(a, name) ==
            ELSE IF dangling THEN "rollback"
            ELSE IF b.cur # 0 THEN "c_readlist" ELSE AfterBase(a)]
   /\ att' = [att EXCEPT ![a] = @ + 1]
-  /\ UNCHANGED <<storageVars, clock, lockHolder, rlock, opi, faults, armed, ghostVars>>
+  /\ UNCHANGED <<storageVars, clock, lockHolder, rlock, opi, faults, lease, ghostVars>>
 
 \* exists + read of the base manifest list (transaction.py:495-505): missing => abort
 ReadBaseList(a) ==
@@ -317,7 +320,7 @@ ReadBaseList(a) ==
           /\ loc' = [loc EXCEPT ![a].finalMans = IF DeleteFiles(a) # {} THEN <<>> ELSE loc[a].todo]
      ELSE /\ pc' = [pc EXCEPT ![a] = "rollback"]
           /\ loc' = [loc EXCEPT ![a].err = "error"]
-  /\ UNCHANGED <<storageVars, clock, lockHolder, rlock, opi, att, faults, armed, ghostVars>>
+  /\ UNCHANGED <<storageVars, clock, lockHolder, rlock, opi, att, faults, lease, ghostVars>>
 
 \* deletes: read each base manifest; keep / rewrite / drop (transaction.py:507-545)
 \* after a base manifest has been handled: next one, or on to the data check
@@ -339,7 +342,7 @@ ReadManifest(a) ==
              /\ pc' = [pc EXCEPT ![a] = AfterMan(a, Len(loc[a].todo))]
         ELSE /\ pc' = [pc EXCEPT ![a] = "c_rew_mark"]   \* partial: rewrite
              /\ UNCHANGED loc
-  /\ UNCHANGED <<storageVars, clock, lockHolder, rlock, opi, att, faults, armed, ghostVars>>
+  /\ UNCHANGED <<storageVars, clock, lockHolder, rlock, opi, att, faults, lease, ghostVars>>
 
 \* marker for a file of the commit in progress (manifest, rewritten manifest or list)
 WriteMarkerM(a, f) ==
@@ -349,7 +352,7 @@ WriteMarkerM(a, f) ==
   /\ mtimeM' = (f :> clock) @@ mtimeM
   /\ loc' = [loc EXCEPT ![a].marks = @ \cup {f}, ![a].pend = f]
   /\ pc' = [pc EXCEPT ![a] = CASE pc[a] = "c_rew_mark" -> "c_rew" [] pc[a] = "c_wman_mark" -> "c_wman" [] OTHER -> "c_wlist"]
-  /\ UNCHANGED <<hint, metas, metaTime, lists, mans, present, ftime, clock, lockHolder, rlock, opi, att, faults, armed, ghostVars>>
+  /\ UNCHANGED <<hint, metas, metaTime, lists, mans, present, ftime, clock, lockHolder, rlock, opi, att, faults, lease, ghostVars>>
 
 \* the rewritten manifest: survivors as EXISTING with their original snapshot id / sequence number
 RewriteManifest(a, newMan, t) ==
@@ -363,7 +366,7 @@ RewriteManifest(a, newMan, t) ==
         /\ ftime' = (newMan :> t) @@ ftime
         /\ loc' = [loc EXCEPT ![a].todo = Tail(@), ![a].finalMans = Append(@, newMan), ![a].newFiles = @ \cup {newMan}]
         /\ pc' = [pc EXCEPT ![a] = AfterMan(a, Len(loc[a].todo))]
-  /\ UNCHANGED <<hint, metas, metaTime, lists, markers, mtimeM, clock, lockHolder, rlock, opi, att, faults, armed, ghostVars>>
+  /\ UNCHANGED <<hint, metas, metaTime, lists, markers, mtimeM, clock, lockHolder, rlock, opi, att, faults, lease, ghostVars>>
 
 \* validate_data_files: every appended file must exist (transaction.py:551)
 CheckData(a) ==
@@ -374,7 +377,7 @@ CheckData(a) ==
           /\ pc' = [pc EXCEPT ![a] = IF loc[a].chk + 1 >= Len(AppendFiles(a)) THEN "c_wman_mark" ELSE "c_checkdata"]
      ELSE /\ pc' = [pc EXCEPT ![a] = "rollback"]
           /\ loc' = [loc EXCEPT ![a].err = "error"]
-  /\ UNCHANGED <<storageVars, clock, lockHolder, rlock, opi, att, faults, armed, ghostVars>>
+  /\ UNCHANGED <<storageVars, clock, lockHolder, rlock, opi, att, faults, lease, ghostVars>>
 
 \* marker + manifest for the appended files (ADDED, this attempt's snapshot id and sequence number)
 WriteManifest(a, newMan, sid, t) ==
@@ -387,7 +390,7 @@ WriteManifest(a, newMan, sid, t) ==
   /\ ftime' = (newMan :> t) @@ ftime
   /\ loc' = [loc EXCEPT ![a].finalMans = Append(@, newMan), ![a].newFiles = @ \cup {newMan}, ![a].sid = sid]
   /\ pc' = [pc EXCEPT ![a] = "c_wlist_mark"]
-  /\ UNCHANGED <<hint, metas, metaTime, lists, markers, mtimeM, clock, lockHolder, rlock, opi, att, faults, armed, ghostVars>>
+  /\ UNCHANGED <<hint, metas, metaTime, lists, markers, mtimeM, clock, lockHolder, rlock, opi, att, faults, lease, ghostVars>>
 
 WriteList(a, newList, sid, t) ==
   /\ pc[a] = "c_wlist"
@@ -399,7 +402,7 @@ WriteList(a, newList, sid, t) ==
   /\ ftime' = (newList :> t) @@ ftime
   /\ loc' = [loc EXCEPT ![a].list = newList, ![a].newFiles = @ \cup {newList}, ![a].sid = sid]
   /\ pc' = [pc EXCEPT ![a] = "c_stamp"]
-  /\ UNCHANGED <<hint, metas, metaTime, mans, markers, mtimeM, clock, lockHolder, rlock, opi, att, faults, armed, ghostVars>>
+  /\ UNCHANGED <<hint, metas, metaTime, mans, markers, mtimeM, clock, lockHolder, rlock, opi, att, faults, lease, ghostVars>>
 
 \* create_snapshot: timestamp read + the new metadata value (snapshot_manager.py:111-148)
 StampSnapshot(a, ts) ==
@@ -409,7 +412,7 @@ StampSnapshot(a, ts) ==
   /\ loc' = [loc EXCEPT ![a].ts = ts,
                         ![a].draft = NewSnapshot(loc[a].base, loc[a].sid, loc[a].seq, ts, loc[a].list, Cutoff(a))]
   /\ pc' = [pc EXCEPT ![a] = "c_tlock"]
-  /\ UNCHANGED <<storageVars, lockHolder, rlock, opi, att, faults, armed, ghostVars>>
+  /\ UNCHANGED <<storageVars, lockHolder, rlock, opi, att, faults, lease, ghostVars>>
 
 \* ---- MetadataManager.commit ----
 TLock(a) ==
@@ -420,14 +423,30 @@ TLock(a) ==
         IF IsFileOp(a) \/ OpKind(a) = "delsnap" THEN loc[a].draft
         ELSE IF Cutoff(a) = NoCutoff THEN loc[a].base ELSE Expire(loc[a].base, Cutoff(a))]
   /\ pc' = [pc EXCEPT ![a] = "c_dlock"]
-  /\ UNCHANGED <<storageVars, clock, lockHolder, opi, att, faults, armed, ghostVars>>
+  /\ UNCHANGED <<storageVars, clock, lockHolder, opi, att, faults, lease, ghostVars>>
+
+PreFencePcs == {"c_validate", "c_stampupd", "c_readver", "c_wmeta", "c_fence"}
 
 DLock(a) ==
   /\ pc[a] = "c_dlock"
-  /\ \/ LockKind = "none" /\ UNCHANGED lockHolder
-     \/ LockKind = "excl" /\ lockHolder = "none" /\ lockHolder' = a
+  /\ \/ LockKind = "none" /\ UNCHANGED <<lockHolder, lease>>
+     \/ LockKind = "excl" /\ lockHolder = "none" /\ lockHolder' = a /\ UNCHANGED lease
+     \/ /\ LockKind = "lease"
+        /\ lockHolder = "none" \/ clock - lease.t > Lease          \* free, or the holder's lease lapsed: takeover
+        /\ lockHolder' = a
+        /\ lease' = [t |-> clock,
+                     lost |-> (lease.lost \ {a}) \cup (IF lockHolder \notin {"none", a} /\ pc[lockHolder] \in PreFencePcs
+                                                       THEN {lockHolder} ELSE {})]
   /\ pc' = [pc EXCEPT ![a] = "c_validate"]
-  /\ UNCHANGED <<storageVars, clock, rlock, opi, att, loc, faults, armed, ghostVars>>
+  /\ UNCHANGED <<storageVars, clock, rlock, opi, att, loc, faults, ghostVars>>
+
+\* the holder's heartbeat thread renews the lease (lock_provider.py:309-335)
+Heartbeat(a) ==
+  /\ LockKind = "lease"
+  /\ lockHolder = a
+  /\ lease.t # clock                       \* (a renewal within the same tick changes nothing)
+  /\ lease' = [lease EXCEPT !.t = clock]
+  /\ UNCHANGED <<storageVars, clock, lockHolder, rlock, actorVars, faults, ghostVars>>
 
 \* the OCC check (metadata_manager.py:161-180): uuid, current snapshot id, last_updated_ms
 Validate(a, name) ==
@@ -439,7 +458,7 @@ Validate(a, name) ==
          ok == name = NoName \/ (cur.uuid = b.uuid /\ cur.cur = b.cur /\ cur.lastUpd = b.lastUpd)
      IN /\ loc' = [loc EXCEPT ![a].valName = name, ![a].after = IF ok THEN "none" ELSE "cme"]
         /\ pc' = [pc EXCEPT ![a] = IF ok THEN "c_stampupd" ELSE "c_unlock"]
-  /\ UNCHANGED <<storageVars, clock, lockHolder, rlock, opi, att, faults, armed, ghostVars>>
+  /\ UNCHANGED <<storageVars, clock, lockHolder, rlock, opi, att, faults, lease, ghostVars>>
 
 \* new_metadata.last_updated_ms = now()   (metadata_manager.py:183)
 StampUpdate(a, t) ==
@@ -448,7 +467,7 @@ StampUpdate(a, t) ==
   /\ clock' = t
   /\ loc' = [loc EXCEPT ![a].draft.lastUpd = IF FixStamp THEN MaxI(t, loc[a].base.lastUpd + 1) ELSE t]
   /\ pc' = [pc EXCEPT ![a] = "c_readver"]
-  /\ UNCHANGED <<storageVars, lockHolder, rlock, opi, att, faults, armed, ghostVars>>
+  /\ UNCHANGED <<storageVars, lockHolder, rlock, opi, att, faults, lease, ghostVars>>
 
 \* second read of the pointer: version number (+ ETag on CAS backends) (metadata_manager.py:187-204)
 ReadVersion(a, name) ==
@@ -460,7 +479,7 @@ ReadVersion(a, name) ==
                            ![a].draft = AppendMlog(loc[a].draft, name),
                            ![a].after = IF stale THEN "cme" ELSE "none"]
      /\ pc' = [pc EXCEPT ![a] = IF stale THEN "c_unlock" ELSE "c_wmeta"]
-  /\ UNCHANGED <<storageVars, clock, lockHolder, rlock, opi, att, faults, armed, ghostVars>>
+  /\ UNCHANGED <<storageVars, clock, lockHolder, rlock, opi, att, faults, lease, ghostVars>>
 
 WriteMeta(a, name) ==
   /\ pc[a] = "c_wmeta"
@@ -470,7 +489,7 @@ WriteMeta(a, name) ==
   /\ metaTime' = (name :> clock) @@ metaTime
   /\ loc' = [loc EXCEPT ![a].target = name.u, ![a].nextVer = name.v]
   /\ pc' = [pc EXCEPT ![a] = "c_fence"]
-  /\ UNCHANGED <<hint, lists, mans, present, ftime, markers, mtimeM, clock, lockHolder, rlock, opi, att, faults, armed, ghostVars>>
+  /\ UNCHANGED <<hint, lists, mans, present, ftime, markers, mtimeM, clock, lockHolder, rlock, opi, att, faults, lease, ghostVars>>
 
 MyMetaName(a) == [v |-> loc[a].nextVer, u |-> loc[a].target]
 
@@ -480,7 +499,7 @@ Fence(a) ==
   /\ LET held == LockKind = "none" \/ lockHolder = a IN
      /\ pc' = [pc EXCEPT ![a] = IF held THEN "c_flip" ELSE "c_unlock"]
      /\ loc' = [loc EXCEPT ![a].after = IF held THEN "none" ELSE "cme"]
-  /\ UNCHANGED <<storageVars, clock, lockHolder, rlock, opi, att, faults, armed, ghostVars>>
+  /\ UNCHANGED <<storageVars, clock, lockHolder, rlock, opi, att, faults, lease, ghostVars>>
 
 \* ---- reference semantics of an acknowledged operation, applied to the reference state ----
 SerialApply(s, a, sid) ==
@@ -508,7 +527,7 @@ FlipHint(a) ==
                                   \/ (hint.cls # "name" /\ loc[a].etagName = NoName)
      IN IF casOK
         THEN /\ hint' = [cls |-> "name", name |-> me]
-             /\ commitLog' = Append(commitLog, [a |-> a, i |-> opi[a], name |-> me, op |-> OpKind(a), replaced |-> hint.name, validated |-> loc[a].valName])
+             /\ commitLog' = Append(commitLog, [a |-> a, i |-> opi[a], name |-> me, op |-> OpKind(a), replaced |-> hint.name, validated |-> loc[a].valName, lost |-> a \in lease.lost])
              /\ serial' = SerialApply(serial, a, loc[a].sid)
              /\ tsOf' = IF IsFileOp(a)
                         THEN (loc[a].sid :> [ts |-> loc[a].ts, files |-> (serial.files \cup SeqToSet(AppendFiles(a))) \ DeleteFiles(a)]) @@ tsOf
@@ -519,15 +538,18 @@ FlipHint(a) ==
         ELSE /\ pc' = [pc EXCEPT ![a] = "c_unlock"]
              /\ loc' = [loc EXCEPT ![a].after = "cme"]
              /\ UNCHANGED <<hint, commitLog, serial, tsOf, sidOfOp>>
-  /\ UNCHANGED <<metas, metaTime, lists, mans, present, ftime, markers, mtimeM, clock, lockHolder, rlock, opi, att, faults, armed, outcomes, reads, deleted, initBody>>
+  /\ UNCHANGED <<metas, metaTime, lists, mans, present, ftime, markers, mtimeM, clock, lockHolder, rlock, opi, att, faults, lease, outcomes, reads, deleted, initBody>>
 
 \* release of the distributed lock, then of the handle's thread lock; where control goes afterwards
 \* was decided by whoever entered the unlock path (loc.after)
+\* (S3 lock, named deviation: release is GET - compare - unconditional DELETE, lock_provider.py:204-210; a releaser
+\* stalled between its GET and its DELETE wipes the lock object of whoever took the lock over meanwhile)
 DUnlock(a) ==
   /\ pc[a] = "c_unlock"
-  /\ lockHolder' = IF lockHolder = a THEN "none" ELSE lockHolder
+  /\ \/ lockHolder' = (IF lockHolder = a THEN "none" ELSE lockHolder)
+     \/ LockKind = "lease" /\ lockHolder \notin {a, "none"} /\ lockHolder' = "none"
   /\ pc' = [pc EXCEPT ![a] = "c_tunlock"]
-  /\ UNCHANGED <<storageVars, clock, rlock, opi, att, loc, faults, armed, ghostVars>>
+  /\ UNCHANGED <<storageVars, clock, rlock, opi, att, loc, faults, lease, ghostVars>>
 
 AfterCme(a) == IF OpKind(a) = "delsnap" THEN "raise_keep"
                ELSE IF att[a] >= MaxAttempts THEN "rollback" ELSE "c_backoff"
@@ -537,20 +559,20 @@ TUnlock(a) ==
   /\ rlock' = [rlock EXCEPT ![Handle[a]] = "none"]
   /\ pc' = [pc EXCEPT ![a] = IF loc[a].after = "cme" THEN AfterCme(a) ELSE loc[a].after]
   /\ loc' = [loc EXCEPT ![a].err = IF loc[a].after = "cme" THEN "cme" ELSE loc[a].err]
-  /\ UNCHANGED <<storageVars, clock, lockHolder, opi, att, faults, armed, ghostVars>>
+  /\ UNCHANGED <<storageVars, clock, lockHolder, opi, att, faults, lease, ghostVars>>
 
 \* time.sleep(backoff), then a new attempt from ReadBase with fresh ids
 Backoff(a) ==
   /\ pc[a] = "c_backoff"
   /\ pc' = [pc EXCEPT ![a] = "c_base"]
   /\ loc' = [loc EXCEPT ![a].sid = 0]
-  /\ UNCHANGED <<storageVars, clock, lockHolder, rlock, opi, att, faults, armed, ghostVars>>
+  /\ UNCHANGED <<storageVars, clock, lockHolder, rlock, opi, att, faults, lease, ghostVars>>
 
 \* _finish_committed() is entered: the transaction is marked committed (transaction.py:607-608)
 Finish(a) ==
   /\ pc[a] = "c_finish"
   /\ pc' = [pc EXCEPT ![a] = "c_cleanup"]
-  /\ UNCHANGED <<storageVars, clock, lockHolder, rlock, opi, att, loc, faults, armed, ghostVars>>
+  /\ UNCHANGED <<storageVars, clock, lockHolder, rlock, opi, att, loc, faults, lease, ghostVars>>
 
 \* _finish_committed: best-effort marker removal, then return True
 DeleteMarker(a, f) ==
@@ -558,7 +580,7 @@ DeleteMarker(a, f) ==
   /\ f \in loc[a].marks
   /\ markers' = markers \ {f}
   /\ loc' = [loc EXCEPT ![a].marks = @ \ {f}]
-  /\ UNCHANGED <<hint, metas, metaTime, lists, mans, present, ftime, mtimeM, clock, lockHolder, rlock, pc, opi, att, faults, armed, ghostVars>>
+  /\ UNCHANGED <<hint, metas, metaTime, lists, mans, present, ftime, mtimeM, clock, lockHolder, rlock, pc, opi, att, faults, lease, ghostVars>>
 
 ReturnOk(a) ==
   /\ pc[a] = "c_cleanup"
@@ -566,7 +588,7 @@ ReturnOk(a) ==
   /\ outcomes' = [outcomes EXCEPT ![a] = Append(@, "ok")]
   /\ pc' = [pc EXCEPT ![a] = "idle"]
   /\ opi' = [opi EXCEPT ![a] = @ + 1]
-  /\ UNCHANGED <<storageVars, clock, lockHolder, rlock, att, loc, faults, armed, commitLog, serial, tsOf, sidOfOp, reads, deleted, initBody>>
+  /\ UNCHANGED <<storageVars, clock, lockHolder, rlock, att, loc, faults, lease, commitLog, serial, tsOf, sidOfOp, reads, deleted, initBody>>
 
 \* _rollback(): delete the DATA files this transaction wrote, then its markers (transaction.py:648-663)
 RollbackDeleteData(a, f) ==
@@ -575,7 +597,7 @@ RollbackDeleteData(a, f) ==
   /\ present' = present \ {f}
   /\ deleted' = deleted \cup {[f |-> f, by |-> a, i |-> opi[a], at |-> Len(commitLog)]}
   /\ loc' = [loc EXCEPT ![a].files = SelectSeq(@, LAMBDA x : x # f)]
-  /\ UNCHANGED <<hint, metas, metaTime, lists, mans, ftime, markers, mtimeM, clock, lockHolder, rlock, pc, opi, att, faults, armed, commitLog, serial, tsOf, sidOfOp, outcomes, reads, initBody>>
+  /\ UNCHANGED <<hint, metas, metaTime, lists, mans, ftime, markers, mtimeM, clock, lockHolder, rlock, pc, opi, att, faults, lease, commitLog, serial, tsOf, sidOfOp, outcomes, reads, initBody>>
 
 RollbackDeleteMarker(a, f) ==
   /\ pc[a] = "rollback"
@@ -583,7 +605,7 @@ RollbackDeleteMarker(a, f) ==
   /\ f \in loc[a].marks
   /\ markers' = markers \ {f}
   /\ loc' = [loc EXCEPT ![a].marks = @ \ {f}]
-  /\ UNCHANGED <<hint, metas, metaTime, lists, mans, present, ftime, mtimeM, clock, lockHolder, rlock, pc, opi, att, faults, armed, ghostVars>>
+  /\ UNCHANGED <<hint, metas, metaTime, lists, mans, present, ftime, mtimeM, clock, lockHolder, rlock, pc, opi, att, faults, lease, ghostVars>>
 
 \* Trace validation only: rollback is best effort - leaving written files or markers behind is
 \* untidy but safe (they are unreachable orphans), so a return from an unfinished rollback is accepted.
@@ -592,7 +614,7 @@ ReturnErrLeaving(a) ==
   /\ outcomes' = [outcomes EXCEPT ![a] = Append(@, loc[a].err)]
   /\ pc' = [pc EXCEPT ![a] = "idle"]
   /\ opi' = [opi EXCEPT ![a] = @ + 1]
-  /\ UNCHANGED <<storageVars, clock, lockHolder, rlock, att, loc, faults, armed, commitLog, serial, tsOf, sidOfOp, reads, deleted, initBody>>
+  /\ UNCHANGED <<storageVars, clock, lockHolder, rlock, att, loc, faults, lease, commitLog, serial, tsOf, sidOfOp, reads, deleted, initBody>>
 
 ReturnErr(a) ==
   /\ \/ pc[a] = "rollback" /\ loc[a].files = <<>> /\ loc[a].marks = {}
@@ -600,7 +622,7 @@ ReturnErr(a) ==
   /\ outcomes' = [outcomes EXCEPT ![a] = Append(@, loc[a].err)]
   /\ pc' = [pc EXCEPT ![a] = "idle"]
   /\ opi' = [opi EXCEPT ![a] = @ + 1]
-  /\ UNCHANGED <<storageVars, clock, lockHolder, rlock, att, loc, faults, armed, commitLog, serial, tsOf, sidOfOp, reads, deleted, initBody>>
+  /\ UNCHANGED <<storageVars, clock, lockHolder, rlock, att, loc, faults, lease, commitLog, serial, tsOf, sidOfOp, reads, deleted, initBody>>
 
 (***************************************************************************)
 (* Faults (C04).  Fault(a, kind) makes the storage call (or, for "async",    *)
@@ -661,7 +683,7 @@ Fault(a, kind) ==
      \/ /\ p = "c_flip" /\ kind = "after"
         \* the PUT landed, the client saw an error: AmbiguousCommitError, nothing is deleted
         /\ hint' = [cls |-> "name", name |-> MyMetaName(a)]
-        /\ commitLog' = Append(commitLog, [a |-> a, i |-> opi[a], name |-> MyMetaName(a), op |-> OpKind(a), replaced |-> hint.name, validated |-> loc[a].valName])
+        /\ commitLog' = Append(commitLog, [a |-> a, i |-> opi[a], name |-> MyMetaName(a), op |-> OpKind(a), replaced |-> hint.name, validated |-> loc[a].valName, lost |-> a \in lease.lost])
         /\ serial' = SerialApply(serial, a, loc[a].sid)
         /\ tsOf' = IF IsFileOp(a)
                    THEN (loc[a].sid :> [ts |-> loc[a].ts, files |-> (serial.files \cup SeqToSet(AppendFiles(a))) \ DeleteFiles(a)]) @@ tsOf
@@ -682,7 +704,7 @@ Fault(a, kind) ==
         /\ pc' = [pc EXCEPT ![a] = IF RollsBack(a, kind, TRUE) THEN "rollback" ELSE "raise_keep"]
         /\ loc' = [loc EXCEPT ![a].err = "interrupted"]
         /\ UNCHANGED <<hint, commitLog, serial, tsOf, sidOfOp>>
-  /\ UNCHANGED <<metas, metaTime, lists, mans, present, ftime, markers, mtimeM, clock, lockHolder, rlock, opi, att, armed, outcomes, reads, deleted, initBody>>
+  /\ UNCHANGED <<metas, metaTime, lists, mans, present, ftime, markers, mtimeM, clock, lockHolder, rlock, opi, att, lease, outcomes, reads, deleted, initBody>>
 
 \* best-effort steps whose failure is swallowed: a marker that could not be removed stays
 SkipMarker(a, f) ==
@@ -692,7 +714,7 @@ SkipMarker(a, f) ==
   /\ faults > 0
   /\ faults' = faults - 1
   /\ loc' = [loc EXCEPT ![a].marks = @ \ {f}]
-  /\ UNCHANGED <<storageVars, clock, lockHolder, rlock, pc, opi, att, armed, ghostVars>>
+  /\ UNCHANGED <<storageVars, clock, lockHolder, rlock, pc, opi, att, lease, ghostVars>>
 
 \* rollback could not delete a data file (swallowed): it stays as an orphan
 SkipRollbackData(a, f) ==
@@ -701,7 +723,7 @@ SkipRollbackData(a, f) ==
   /\ faults > 0
   /\ faults' = faults - 1
   /\ loc' = [loc EXCEPT ![a].files = SelectSeq(@, LAMBDA x : x # f)]
-  /\ UNCHANGED <<storageVars, clock, lockHolder, rlock, pc, opi, att, armed, ghostVars>>
+  /\ UNCHANGED <<storageVars, clock, lockHolder, rlock, pc, opi, att, lease, ghostVars>>
 
 \* ---- delete_snapshot (snapshot_manager.py:258-301): refresh, build, commit, no retry ----
 DsResolve(a, name) ==
@@ -721,7 +743,7 @@ DsResolve(a, name) ==
              /\ pc' = [pc EXCEPT ![a] = "idle"]
              /\ opi' = [opi EXCEPT ![a] = @ + 1]
              /\ UNCHANGED <<loc, att>>
-  /\ UNCHANGED <<storageVars, clock, lockHolder, rlock, faults, armed, commitLog, serial, tsOf, sidOfOp, reads, deleted, initBody>>
+  /\ UNCHANGED <<storageVars, clock, lockHolder, rlock, faults, lease, commitLog, serial, tsOf, sidOfOp, reads, deleted, initBody>>
 
 (***************************************************************************)
 (* Reader (Table._get_all_data_files + data reads).                        *)
@@ -739,7 +761,7 @@ RBegin(a, name) ==
   /\ LET b == metas[name] IN
      /\ loc' = [loc EXCEPT ![a] = [EmptyLoc EXCEPT !.from = Len(commitLog), !.body = b]]
      /\ pc' = [pc EXCEPT ![a] = IF b.cur = 0 THEN "r_return" ELSE "r_list"]
-  /\ UNCHANGED <<storageVars, clock, lockHolder, rlock, opi, att, faults, armed, ghostVars>>
+  /\ UNCHANGED <<storageVars, clock, lockHolder, rlock, opi, att, faults, lease, ghostVars>>
 
 RReadList(a) ==
   /\ pc[a] = "r_list"
@@ -749,7 +771,7 @@ RReadList(a) ==
           /\ pc' = [pc EXCEPT ![a] = IF Len(lists[l]) = 0 THEN "r_data" ELSE "r_man"]
      ELSE /\ loc' = [loc EXCEPT ![a].err = "raise"]
           /\ pc' = [pc EXCEPT ![a] = "r_return"]
-  /\ UNCHANGED <<storageVars, clock, lockHolder, rlock, opi, att, faults, armed, ghostVars>>
+  /\ UNCHANGED <<storageVars, clock, lockHolder, rlock, opi, att, faults, lease, ghostVars>>
 
 RReadManifest(a) ==
   /\ pc[a] = "r_man"
@@ -759,7 +781,7 @@ RReadManifest(a) ==
           /\ pc' = [pc EXCEPT ![a] = IF Len(loc[a].todo) = 1 THEN "r_data" ELSE "r_man"]
      ELSE /\ loc' = [loc EXCEPT ![a].err = "raise"]
           /\ pc' = [pc EXCEPT ![a] = "r_return"]
-  /\ UNCHANGED <<storageVars, clock, lockHolder, rlock, opi, att, faults, armed, ghostVars>>
+  /\ UNCHANGED <<storageVars, clock, lockHolder, rlock, opi, att, faults, lease, ghostVars>>
 
 RReadData(a, f) ==
   /\ pc[a] = "r_data"
@@ -770,7 +792,7 @@ RReadData(a, f) ==
           /\ UNCHANGED pc
      ELSE /\ loc' = [loc EXCEPT ![a].err = "raise"]
           /\ pc' = [pc EXCEPT ![a] = "r_return"]
-  /\ UNCHANGED <<storageVars, clock, lockHolder, rlock, opi, att, faults, armed, ghostVars>>
+  /\ UNCHANGED <<storageVars, clock, lockHolder, rlock, opi, att, faults, lease, ghostVars>>
 
 RReturn(a) ==
   /\ \/ pc[a] = "r_return"
@@ -780,7 +802,7 @@ RReturn(a) ==
                              err |-> loc[a].err, cur |-> loc[a].body.cur])
   /\ pc' = [pc EXCEPT ![a] = "idle"]
   /\ opi' = [opi EXCEPT ![a] = @ + 1]
-  /\ UNCHANGED <<storageVars, clock, lockHolder, rlock, att, loc, faults, armed, commitLog, serial, tsOf, sidOfOp, outcomes, deleted, initBody>>
+  /\ UNCHANGED <<storageVars, clock, lockHolder, rlock, att, loc, faults, lease, commitLog, serial, tsOf, sidOfOp, outcomes, deleted, initBody>>
 
 (***************************************************************************)
 (* Collector (garbage_collector.py:54-270).                                *)
@@ -827,7 +849,7 @@ GBegin(a, name) ==
         \* (a file that exists but has no parseable content is not in DOMAIN lists / DOMAIN mans)
         /\ pc' = [pc EXCEPT ![a] = IF (r.lists \cup r.mans) \subseteq present /\ r.lists \subseteq DOMAIN lists /\ r.mans \subseteq DOMAIN mans
                                    THEN (IF FixGCOrder THEN AfterBegin ELSE "g_stampm") ELSE "g_abort"]
-  /\ UNCHANGED <<storageVars, clock, lockHolder, rlock, opi, att, faults, armed, ghostVars>>
+  /\ UNCHANGED <<storageVars, clock, lockHolder, rlock, opi, att, faults, lease, ghostVars>>
 
 \* cutoff for marker abandonment: time.time() before the marker listing
 GStampM(a, now) ==
@@ -838,7 +860,7 @@ GStampM(a, now) ==
   /\ clock' = now
   /\ loc' = [loc EXCEPT ![a] = [(IF FixGCOrder THEN EmptyLoc ELSE loc[a]) EXCEPT !.cutoff = now]]
   /\ pc' = [pc EXCEPT ![a] = "g_markers"]
-  /\ UNCHANGED <<storageVars, lockHolder, rlock, opi, att, faults, armed, ghostVars>>
+  /\ UNCHANGED <<storageVars, lockHolder, rlock, opi, att, faults, lease, ghostVars>>
 
 \* list metadata/inflight (+ stat and read of every marker): fresh markers protect their target,
 \* abandoned ones are removed (GSweepMarker) and their files fall back to ordinary orphan handling
@@ -848,7 +870,7 @@ GLoadMarkers(a) ==
   /\ loc' = [loc EXCEPT ![a].prot = {f \in markers : FreshMarker(f, loc[a].cutoff)},
                         ![a].mseen = {f \in markers : ~FreshMarker(f, loc[a].cutoff)}]
   /\ pc' = [pc EXCEPT ![a] = IF FixGCOrder THEN "g_begin" ELSE AfterBegin]
-  /\ UNCHANGED <<storageVars, clock, lockHolder, rlock, opi, att, faults, armed, ghostVars>>
+  /\ UNCHANGED <<storageVars, clock, lockHolder, rlock, opi, att, faults, lease, ghostVars>>
 
 GSweepMarker(a, f) ==
   /\ Role[a] = "collector"
@@ -856,7 +878,7 @@ GSweepMarker(a, f) ==
   /\ f \in loc[a].mseen
   /\ markers' = markers \ {f}
   /\ loc' = [loc EXCEPT ![a].mseen = @ \ {f}]
-  /\ UNCHANGED <<hint, metas, metaTime, lists, mans, present, ftime, mtimeM, clock, lockHolder, rlock, pc, opi, att, faults, armed, ghostVars>>
+  /\ UNCHANGED <<hint, metas, metaTime, lists, mans, present, ftime, mtimeM, clock, lockHolder, rlock, pc, opi, att, faults, lease, ghostVars>>
 
 Eligible(a, f) == f \notin loc[a].reach /\ f \notin loc[a].prot /\ f \in present /\ ftime[f] <= loc[a].cutoff
 \* the listed files the current sweep is about
@@ -876,7 +898,7 @@ GStamp(a, now) ==
   /\ loc' = [loc EXCEPT ![a].cutoff = now - GraceOf(a), ![a].cand = IF FixGCFail THEN @ ELSE {}]
   /\ pc' = [pc EXCEPT ![a] = IF FixGCFail THEN (IF pc[a] = "g_stampd" THEN "g_sweepd" ELSE "g_sweepm")
                                           ELSE (IF pc[a] = "g_cutd" THEN "g_listd" ELSE "g_listm")]
-  /\ UNCHANGED <<storageVars, lockHolder, rlock, opi, att, faults, armed, ghostVars>>
+  /\ UNCHANGED <<storageVars, lockHolder, rlock, opi, att, faults, lease, ghostVars>>
 
 \* listing of data/ (g_listd) or metadata/manifests/ (g_listm)
 GList(a) ==
@@ -888,7 +910,7 @@ GList(a) ==
                                                           ELSE {f \in present : ~IsDataFile(f)})]
   /\ pc' = [pc EXCEPT ![a] = IF pc[a] = "g_listd" THEN (IF FixGCFail THEN "g_listm" ELSE "g_sweepd")
                                                   ELSE (IF FixGCFail THEN "g_stampd" ELSE "g_sweepm")]
-  /\ UNCHANGED <<storageVars, clock, lockHolder, rlock, opi, att, faults, armed, ghostVars>>
+  /\ UNCHANGED <<storageVars, clock, lockHolder, rlock, opi, att, faults, lease, ghostVars>>
 
 (* ---- collector failure handling (C07) ---- *)
 \* a reachable manifest list / manifest cannot be read (missing, unparseable, transient error):
@@ -897,7 +919,7 @@ GFaultReach(a) ==
   /\ Role[a] = "collector"
   /\ pc[a] = (IF FixGCOrder THEN AfterBegin ELSE "g_stampm")
   /\ pc' = [pc EXCEPT ![a] = "g_abort"]
-  /\ UNCHANGED <<storageVars, clock, lockHolder, rlock, opi, att, loc, faults, armed, ghostVars>>
+  /\ UNCHANGED <<storageVars, clock, lockHolder, rlock, opi, att, loc, faults, lease, ghostVars>>
 
 \* the marker directory cannot be listed.  As the code was: treated as "no markers".
 GFaultMarkList(a) ==
@@ -907,7 +929,7 @@ GFaultMarkList(a) ==
      THEN pc' = [pc EXCEPT ![a] = "g_abort"] /\ UNCHANGED loc
      ELSE /\ loc' = [loc EXCEPT ![a].prot = {}, ![a].mseen = {}]
           /\ pc' = [pc EXCEPT ![a] = IF FixGCOrder THEN "g_begin" ELSE AfterBegin]
-  /\ UNCHANGED <<storageVars, clock, lockHolder, rlock, opi, att, faults, armed, ghostVars>>
+  /\ UNCHANGED <<storageVars, clock, lockHolder, rlock, opi, att, faults, lease, ghostVars>>
 
 \* a marker's payload cannot be read.  As the code was: its target is assumed to be data/<name>, so a
 \* marker protecting a manifest or a list stops protecting it.  Repaired: the name stays protected.
@@ -916,7 +938,7 @@ GMarkUnreadable(a, f) ==
   /\ pc[a] \in {"g_begin", "g_cutd", "g_listd"}
   /\ f \in loc[a].prot \cup loc[a].mseen
   /\ loc' = [loc EXCEPT ![a].prot = IF ~FixGCFail /\ ~IsDataFile(f) THEN @ \ {f} ELSE @]
-  /\ UNCHANGED <<storageVars, clock, lockHolder, rlock, pc, opi, att, faults, armed, ghostVars>>
+  /\ UNCHANGED <<storageVars, clock, lockHolder, rlock, pc, opi, att, faults, lease, ghostVars>>
 
 \* an abandoned marker could not be removed: it keeps protecting its file
 GMarkUndeletable(a, f) ==
@@ -924,14 +946,14 @@ GMarkUndeletable(a, f) ==
   /\ pc[a] \in {"g_begin", "g_cutd", "g_listd"}
   /\ f \in loc[a].mseen
   /\ loc' = [loc EXCEPT ![a].mseen = @ \ {f}, ![a].prot = @ \cup {f}]
-  /\ UNCHANGED <<storageVars, clock, lockHolder, rlock, pc, opi, att, faults, armed, ghostVars>>
+  /\ UNCHANGED <<storageVars, clock, lockHolder, rlock, pc, opi, att, faults, lease, ghostVars>>
 
 \* a directory cannot be listed, or the listing contains a path outside the table: abort
 GFaultList(a) ==
   /\ Role[a] = "collector"
   /\ pc[a] \in {"g_listd", "g_listm"}
   /\ pc' = [pc EXCEPT ![a] = "g_abort"]
-  /\ UNCHANGED <<storageVars, clock, lockHolder, rlock, opi, att, loc, faults, armed, ghostVars>>
+  /\ UNCHANGED <<storageVars, clock, lockHolder, rlock, opi, att, loc, faults, lease, ghostVars>>
 
 \* refresh() itself fails: collect() raises before anything else happened
 GFaultEarly(a) ==
@@ -939,7 +961,7 @@ GFaultEarly(a) ==
   /\ pc[a] \in {"idle", "g_begin", "g_stampm", "g_listd", "g_cutd"}
   /\ opi[a] <= Len(Prog[a])
   /\ pc' = [pc EXCEPT ![a] = "g_abort"]
-  /\ UNCHANGED <<storageVars, clock, lockHolder, rlock, opi, att, loc, faults, armed, ghostVars>>
+  /\ UNCHANGED <<storageVars, clock, lockHolder, rlock, opi, att, loc, faults, lease, ghostVars>>
 
 \* the listing contains a path outside the table root.  As the code was: the guard sits inside the
 \* delete loop (entries before the escaping one are processed first).  Repaired: every listed path
@@ -952,7 +974,7 @@ GListEscaping(a) ==
      ELSE /\ loc' = [loc EXCEPT ![a].esc = TRUE,
                                 ![a].cand = IF pc[a] = "g_listd" THEN {f \in present : IsDataFile(f)} ELSE {f \in present : ~IsDataFile(f)}]
           /\ pc' = [pc EXCEPT ![a] = IF pc[a] = "g_listd" THEN "g_sweepd" ELSE "g_sweepm"]
-  /\ UNCHANGED <<storageVars, clock, lockHolder, rlock, opi, att, faults, armed, ghostVars>>
+  /\ UNCHANGED <<storageVars, clock, lockHolder, rlock, opi, att, faults, lease, ghostVars>>
 
 \* a candidate cannot be stat'ed or deleted: it is skipped (nothing live is at risk)
 GSkip(a, f) ==
@@ -960,7 +982,7 @@ GSkip(a, f) ==
   /\ pc[a] \in {"g_sweepd", "g_sweepm"}
   /\ f \in CandNow(a)
   /\ loc' = [loc EXCEPT ![a].cand = @ \ {f}]
-  /\ UNCHANGED <<storageVars, clock, lockHolder, rlock, pc, opi, att, faults, armed, ghostVars>>
+  /\ UNCHANGED <<storageVars, clock, lockHolder, rlock, pc, opi, att, faults, lease, ghostVars>>
 
 \* one listed file is deleted: only if unreachable, unprotected and older than the cutoff
 GDelete(a, f) ==
@@ -971,7 +993,7 @@ GDelete(a, f) ==
   /\ present' = present \ {f}
   /\ deleted' = deleted \cup {[f |-> f, by |-> a, i |-> opi[a], at |-> loc[a].from]}
   /\ loc' = [loc EXCEPT ![a].cand = @ \ {f}]
-  /\ UNCHANGED <<hint, metas, metaTime, lists, mans, ftime, markers, mtimeM, clock, lockHolder, rlock, pc, opi, att, faults, armed, commitLog, serial, tsOf, sidOfOp, outcomes, reads, initBody>>
+  /\ UNCHANGED <<hint, metas, metaTime, lists, mans, ftime, markers, mtimeM, clock, lockHolder, rlock, pc, opi, att, faults, lease, commitLog, serial, tsOf, sidOfOp, outcomes, reads, initBody>>
 
 GReturn(a) ==
   /\ Role[a] = "collector"
@@ -981,13 +1003,13 @@ GReturn(a) ==
   /\ outcomes' = [outcomes EXCEPT ![a] = Append(@, IF pc[a] = "g_abort" \/ loc[a].esc THEN "aborted" ELSE "ok")]
   /\ pc' = [pc EXCEPT ![a] = "idle"]
   /\ opi' = [opi EXCEPT ![a] = @ + 1]
-  /\ UNCHANGED <<storageVars, clock, lockHolder, rlock, att, loc, faults, armed, commitLog, serial, tsOf, sidOfOp, reads, deleted, initBody>>
+  /\ UNCHANGED <<storageVars, clock, lockHolder, rlock, att, loc, faults, lease, commitLog, serial, tsOf, sidOfOp, reads, deleted, initBody>>
 
 GFaultReachB(a) ==
   /\ Role[a] = "collector"
   /\ pc[a] = (IF FixGCOrder THEN AfterBegin ELSE "g_stampm")
   /\ pc' = [pc EXCEPT ![a] = "g_abort"]
-  /\ UNCHANGED <<storageVars, clock, lockHolder, rlock, opi, att, loc, armed, ghostVars>>
+  /\ UNCHANGED <<storageVars, clock, lockHolder, rlock, opi, att, loc, lease, ghostVars>>
 
 GFaultMarkListB(a) ==
   /\ Role[a] = "collector"
@@ -996,34 +1018,34 @@ GFaultMarkListB(a) ==
      THEN pc' = [pc EXCEPT ![a] = "g_abort"] /\ UNCHANGED loc
      ELSE /\ loc' = [loc EXCEPT ![a].prot = {}, ![a].mseen = {}]
           /\ pc' = [pc EXCEPT ![a] = IF FixGCOrder THEN "g_begin" ELSE "g_cutd"]
-  /\ UNCHANGED <<storageVars, clock, lockHolder, rlock, opi, att, armed, ghostVars>>
+  /\ UNCHANGED <<storageVars, clock, lockHolder, rlock, opi, att, lease, ghostVars>>
 
 GFaultListB(a) ==
   /\ Role[a] = "collector"
   /\ pc[a] \in {"g_listd", "g_listm"}
   /\ pc' = [pc EXCEPT ![a] = "g_abort"]
-  /\ UNCHANGED <<storageVars, clock, lockHolder, rlock, opi, att, loc, armed, ghostVars>>
+  /\ UNCHANGED <<storageVars, clock, lockHolder, rlock, opi, att, loc, lease, ghostVars>>
 
 GMarkUnreadableB(a, f) ==
   /\ Role[a] = "collector"
   /\ pc[a] \in {"g_begin", "g_cutd"}
   /\ f \in loc[a].prot \cup loc[a].mseen
   /\ loc' = [loc EXCEPT ![a].prot = IF ~FixGCFail /\ ~IsDataFile(f) THEN @ \ {f} ELSE @]
-  /\ UNCHANGED <<storageVars, clock, lockHolder, rlock, pc, opi, att, armed, ghostVars>>
+  /\ UNCHANGED <<storageVars, clock, lockHolder, rlock, pc, opi, att, lease, ghostVars>>
 
 GMarkUndeletableB(a, f) ==
   /\ Role[a] = "collector"
   /\ pc[a] \in {"g_begin", "g_cutd"}
   /\ f \in loc[a].mseen
   /\ loc' = [loc EXCEPT ![a].mseen = @ \ {f}, ![a].prot = @ \cup {f}]
-  /\ UNCHANGED <<storageVars, clock, lockHolder, rlock, pc, opi, att, armed, ghostVars>>
+  /\ UNCHANGED <<storageVars, clock, lockHolder, rlock, pc, opi, att, lease, ghostVars>>
 
 GSkipB(a, f) ==
   /\ Role[a] = "collector"
   /\ pc[a] \in {"g_sweepd", "g_sweepm"}
   /\ f \in CandNow(a)
   /\ loc' = [loc EXCEPT ![a].cand = @ \ {f}]
-  /\ UNCHANGED <<storageVars, clock, lockHolder, rlock, pc, opi, att, armed, ghostVars>>
+  /\ UNCHANGED <<storageVars, clock, lockHolder, rlock, pc, opi, att, lease, ghostVars>>
 
 CollectorNext(a) ==
   \/ \E n \in DOMAIN metas : GBegin(a, n)
@@ -1072,7 +1094,7 @@ CommitterNext(a) ==
   \/ Fence(a) \/ FlipHint(a) \/ DUnlock(a) \/ TUnlock(a) \/ Backoff(a)
   \/ \E f \in loc[a].marks : DeleteMarker(a, f) \/ RollbackDeleteMarker(a, f)
   \/ \E f \in SeqToSet(loc[a].files) : RollbackDeleteData(a, f)
-  \/ ReturnOk(a) \/ ReturnErr(a) \/ Finish(a)
+  \/ ReturnOk(a) \/ ReturnErr(a) \/ Finish(a) \/ Heartbeat(a)
   \/ \E k \in FaultKinds : Fault(a, k)
   \/ \E f \in loc[a].marks : SkipMarker(a, f)
   \/ \E f \in SeqToSet(loc[a].files) : SkipRollbackData(a, f)
@@ -1138,6 +1160,9 @@ ReachablePresent == Reachable(CurBody) \subseteq present
 \* C08 (action property): a successful flip replaces exactly the version the committer validated
 FlipReplacesValidated ==
   \A k \in 1..Len(commitLog) : commitLog[k].replaced = commitLog[k].validated \/ commitLog[k].validated = NoName
+
+\* C08: a committer whose lock was taken over before it passed the fence never commits that attempt
+LostLockNeverAcks == \A k \in 1..Len(commitLog) : ~commitLog[k].lost
 
 \* C02: a read returns the file set of one snapshot that was current between its start and end
 CommittedCurFiles(k) ==   \* files of the current snapshot after k commits (k = 0: initial table)
